@@ -26,6 +26,7 @@ type c07Op struct {
 	Fail  bool   `json:"fail,omitempty"`  // sendiq: the transport write fails
 	Early bool   `json:"early,omitempty"` // sendiq: the response is routed from inside the transport Write (before SendIQ returns)
 	XID   int    `json:"xid,omitempty"`   // arrive: the response comes off the wire (decoded by stanza.NextPacket) carrying, besides its id, a look-alike attribute xml:id='XID'
+	Get   bool   `json:"get,omitempty"`   // arrive: the IQ is a REQUEST (type get) that happens to carry this id, not a response
 	Late  bool   `json:"late,omitempty"`  // sendiq: context whose Err() turns non-nil on cancel but whose Done() never fires: the canceller goroutine never removes the entry (the window between cancellation and clean-up, held open)
 }
 type c07In struct {
@@ -42,7 +43,7 @@ func (c07) RunFn() string { return "run_C07" }
 func (c07) Workers() int  { return 8 }
 func (c07) Journal() bool { return true }
 func (c07) Rule() string {
-	return "forced schedules on the real Router/Client/Component: SendIQ (ids distinct or clashing, write ok or failing, response routed from inside the transport write i.e. before SendIQ returns), matching / duplicate / foreign responses routed synchronously (one in four decoded from the wire by stanza.NextPacket with an xml:id look-alike naming another request), bursts of 2-6 concurrent copies of one response released together through the exported IQResultRouteLock, receiver reading or abandoning its channel, an ordinary route handler that itself calls SendIQ (re-entrancy into the pending table while a response is being routed), context cancellation before the response, with the clean-up goroutine run or held back (context whose Done() never fires); every routing call runs under a watchdog (a call that does not return is a blocked router); distinct = op sequence shape; non-trivial = at least one request and one response"
+	return "forced schedules on the real Router/Client/Component: SendIQ (ids distinct or clashing - a clashing id must be refused with an error and nothing written while the earlier request is awaiting its response -, write ok or failing, response routed from inside the transport write i.e. before SendIQ returns), matching / duplicate / foreign responses routed synchronously, one in four arrivals being a get REQUEST carrying such an id (it must reach the ordinary routes and leave the pending request alone) (one in four decoded from the wire by stanza.NextPacket with an xml:id look-alike naming another request), bursts of 2-6 concurrent copies of one response released together through the exported IQResultRouteLock, receiver reading or abandoning its channel, an ordinary route handler that itself calls SendIQ (re-entrancy into the pending table while a response is being routed), context cancellation before the response, with the clean-up goroutine run or held back (context whose Done() never fires); every routing call runs under a watchdog (a call that does not return is a blocked router); distinct = op sequence shape; non-trivial = at least one request and one response"
 }
 func (c07) Decode(raw json.RawMessage) (interface{}, error) {
 	var in c07In
@@ -70,7 +71,11 @@ func (c07) Gen(r *rand.Rand, tier string) []interface{} {
 		c07In{Ops: []c07Op{{Op: "sendiq", ID: 1}, {Op: "arrive", ID: 1}, {Op: "reenter", ID: 1}, {Op: "arrive", ID: 21}}},
 		// a response whose xml:id look-alike names another pending request must still go to its own id
 		c07In{Ops: []c07Op{{Op: "sendiq", ID: 1}, {Op: "sendiq", ID: 2}, {Op: "arrive", ID: 1, XID: 2}, {Op: "arrive", ID: 2, XID: 1}, {Op: "recv", Req: 0}, {Op: "recv", Req: 1}}},
-		// clashing ids
+		// a get carrying the id of a pending request is a request, not its response (hunt-C07/f1)
+		c07In{Ops: []c07Op{{Op: "sendiq", ID: 1}, {Op: "arrive", ID: 1, Get: true}, {Op: "arrive", ID: 1}, {Op: "recv", Req: 0}}},
+		c07In{Component: true, Ops: []c07Op{{Op: "sendiq", ID: 2}, {Op: "arrive", ID: 2, Get: true, XID: 2}, {Op: "recv", Req: 0}, {Op: "arrive", ID: 2}}},
+		// clashing ids: the second request is refused, the first keeps its entry (hunt-C07/f3)
+		c07In{Ops: []c07Op{{Op: "sendiq", ID: 1}, {Op: "sendiq", ID: 1}, {Op: "arrive", ID: 1}, {Op: "recv", Req: 0}, {Op: "sendiq", ID: 1}, {Op: "arrive", ID: 1}}},
 		c07In{Ops: []c07Op{{Op: "sendiq", ID: 1}, {Op: "sendiq", ID: 1}, {Op: "arrive", ID: 1}, {Op: "arrive", ID: 1}, {Op: "recv", Req: 0}, {Op: "recv", Req: 1}}},
 		c07In{Ops: []c07Op{{Op: "sendiq", ID: 1, Fail: true}, {Op: "arrive", ID: 1}}},
 		// response in the window between cancellation and clean-up
@@ -90,7 +95,7 @@ func (c07) Gen(r *rand.Rand, tier string) []interface{} {
 				if nreq > 0 && r.Intn(5) == 0 {
 					id = 20 + r.Intn(nreq) // the answer to a request sent by a re-entrant handler (if that slot is one)
 				}
-				op := c07Op{Op: "arrive", ID: id}
+				op := c07Op{Op: "arrive", ID: id, Get: r.Intn(4) == 0}
 				if r.Intn(4) == 0 {
 					op.XID = 1 + r.Intn(4) // decoded from the wire, with an xml:id look-alike naming another (maybe pending) request
 				}
@@ -119,8 +124,12 @@ func (c07) Input(inp interface{}) Sx {
 	nch, nrt := 0, 0
 	var failed []bool
 	var late []bool
-	arrive := func(id int) {
-		acts = append(acts, L(Z(2), Zi(id), Zi(nrt)))
+	arrive := func(id int, get ...bool) {
+		if len(get) > 0 && get[0] {
+			acts = append(acts, L(Z(2), Zi(id), Zi(nrt), Z(1)))
+		} else {
+			acts = append(acts, L(Z(2), Zi(id), Zi(nrt)))
+		}
 		for s := 0; s < 3; s++ {
 			acts = append(acts, L(Z(3), Zi(nrt)))
 		}
@@ -141,7 +150,7 @@ func (c07) Input(inp interface{}) Sx {
 				acts = append(acts, L(Z(1), Zi(c)))
 			}
 		case "arrive":
-			arrive(o.ID)
+			arrive(o.ID, o.Get)
 		case "reenter":
 			// the response is routed; its ordinary handler (if it runs) registers request 20+chan index
 			arrive(o.ID)
@@ -206,8 +215,7 @@ func (c07) Run(inp interface{}) Sx {
 	var reenter func(s xmpp.Sender) // set while a "reenter" op is being executed
 	router.NewRoute().HandlerFunc(func(s xmpp.Sender, p stanza.Packet) {
 		if iq, ok := p.(*stanza.IQ); ok {
-			var id int64
-			fmt.Sscan(iq.Id, &id)
+			id := c07IQ(iq)
 			mu.Lock()
 			ordinary = append(ordinary, id)
 			f := reenter
@@ -237,16 +245,22 @@ func (c07) Run(inp interface{}) Sx {
 	}
 	blocked := 0
 	xid := 0
+	get := false
 	routeSync := func(id int) {
 		done := make(chan struct{})
 		x := xid
 		xid = 0
+		typ, from := stanza.IQTypeResult, "srv"
+		if get {
+			typ, from = stanza.IQTypeGet, "juliet@localhost/balcony" // somebody's request, same id
+		}
+		get = false
 		go func() {
 			defer close(done)
 			var pkt stanza.Packet
 			if x != 0 {
 				// as it would arrive: decoded from the stream
-				doc := fmt.Sprintf("<stream:stream xmlns='jabber:client' xmlns:stream='http://etherx.jabber.org/streams'><iq type='result' id='%d' xml:id='%d' from='srv'/>", id, x)
+				doc := fmt.Sprintf("<stream:stream xmlns='jabber:client' xmlns:stream='http://etherx.jabber.org/streams'><iq type='%s' id='%d' xml:id='%d' from='%s'/>", typ, id, x, from)
 				d := xml.NewDecoder(strings.NewReader(doc))
 				if _, err := stanza.InitStream(d); err != nil {
 					return
@@ -257,7 +271,7 @@ func (c07) Run(inp interface{}) Sx {
 				}
 				pkt = p
 			} else {
-				iq, _ := stanza.NewIQ(stanza.Attrs{Type: stanza.IQTypeResult, Id: fmt.Sprint(id), From: "srv"})
+				iq, _ := stanza.NewIQ(stanza.Attrs{Type: typ, Id: fmt.Sprint(id), From: from})
 				pkt = iq
 			}
 			xmpp.VerifRoute(router, sender, pkt)
@@ -279,6 +293,7 @@ func (c07) Run(inp interface{}) Sx {
 		late   bool
 	}
 	var reqs []*req
+	var refused []Sx
 	read := func(rq *req) {
 		if rq.ch == nil {
 			return
@@ -286,9 +301,7 @@ func (c07) Run(inp interface{}) Sx {
 		select {
 		case v, ok := <-rq.ch:
 			if ok {
-				var id int64
-				fmt.Sscan(v.Id, &id)
-				rq.got = append(rq.got, id)
+				rq.got = append(rq.got, c07IQ(&v))
 			} else {
 				rq.closed = true
 			}
@@ -318,14 +331,31 @@ func (c07) Run(inp interface{}) Sx {
 				hook.onWrite = func() { routeSync(id) }
 			}
 			hook.mu2.Unlock()
+			hook.mu2.Lock()
+			before := hook.attempts
+			hook.mu2.Unlock()
 			ch, err := sendIQ(ctx, iq)
+			hook.mu2.Lock()
+			wrote := hook.attempts != before
+			early := hook.onWrite
+			hook.failNext, hook.onWrite = false, nil
+			hook.mu2.Unlock()
+			// refused: an error although nothing was handed to the transport (the id is awaiting its response)
+			isRefused := err != nil && !wrote
 			rq := &req{ch: ch, cancel: cancel, failed: err != nil, late: o.Late}
-			if (err != nil) != o.Fail {
+			if (err == nil && o.Fail) || (err != nil && !o.Fail && !isRefused) {
 				rq.got = append(rq.got, -7) // unexpected SendIQ result
 			}
+			if isRefused {
+				refused = append(refused, Zi(len(reqs)))
+			}
 			reqs = append(reqs, rq)
+			if early != nil {
+				early() // nothing was written (refused): the "early" response still arrives, now
+			}
 		case "arrive":
 			xid = o.XID
+			get = o.Get
 			routeSync(o.ID)
 		case "reenter":
 			rq := &req{}
@@ -396,7 +426,17 @@ func (c07) Run(inp interface{}) Sx {
 	for i, v := range sorted {
 		ord[i] = Z(v)
 	}
-	return L(B(false), LS(chs), LS(ord), Zi(blocked))
+	return L(B(false), LS(chs), LS(ord), Zi(blocked), LS(refused))
+}
+
+// c07IQ: an IQ as the observation records it: its id, plus 100 when it is a request (get/set).
+func c07IQ(iq *stanza.IQ) int64 {
+	var id int64
+	fmt.Sscan(iq.Id, &id)
+	if iq.Type == stanza.IQTypeGet || iq.Type == stanza.IQTypeSet {
+		id += 100
+	}
+	return id
 }
 
 // c07Transport: stub whose Write can fail on demand or call back (response "arrives"
@@ -406,12 +446,14 @@ type c07Transport struct {
 	mu2      sync.Mutex
 	failNext bool
 	onWrite  func()
+	attempts int // calls of Write, failing ones included
 }
 
 func (t *c07Transport) Write(p []byte) (int, error) {
 	t.mu2.Lock()
 	fail, cb := t.failNext, t.onWrite
 	t.failNext, t.onWrite = false, nil
+	t.attempts++
 	t.mu2.Unlock()
 	if fail {
 		return 0, fmt.Errorf("stub: write failed")
@@ -426,7 +468,7 @@ func (t *c07Transport) Write(p []byte) (int, error) {
 // Oracle: model-free statement of C07 on the observation.
 func (c07) Oracle(inp interface{}, obs Sx) (string, string) {
 	in := inp.(c07In)
-	if len(obs.L) != 4 {
+	if len(obs.L) != 5 {
 		return "no observation", "shape"
 	}
 	if obs.L[3].Z != 0 {
@@ -440,6 +482,7 @@ func (c07) Oracle(inp interface{}, obs Sx) (string, string) {
 	want := map[int]int{} // request -> number of values it must have received (0/1)
 	wantOrd := map[int]int{}
 	lateCancelled := map[int]bool{}
+	wantRefused := map[int]bool{}
 	var isLate []bool
 	deliver := func(id int) {
 		if rq, ok := pending[id]; ok {
@@ -461,18 +504,29 @@ func (c07) Oracle(inp interface{}, obs Sx) (string, string) {
 			reqID = append(reqID, o.ID)
 			failed = append(failed, o.Fail)
 			isLate = append(isLate, o.Late)
-			if !o.Fail {
-				pending[o.ID] = rq
+			if cur, ok := pending[o.ID]; ok && !lateCancelled[cur] {
+				// the id is awaiting its response: the new request is refused (error, nothing written) and the
+				// earlier request keeps its entry - "never to another request"
+				wantRefused[rq] = true
+				failed[rq] = true
+				if o.Early && !o.Fail {
+					deliver(o.ID)
+				}
+			} else if !o.Fail {
+				pending[o.ID] = rq // free id, or the entry of a request whose context has ended
 				if o.Early {
 					deliver(o.ID)
 				}
 			} else {
-				// ids are the only key: a request that reuses a pending id takes its place in the
-				// table, also when its own send then fails and it is unregistered again
+				// registered (over an ended request's entry, if any), write failed, unregistered again
 				delete(pending, o.ID)
 			}
 		case "arrive":
-			deliver(o.ID)
+			if o.Get {
+				wantOrd[100+o.ID]++ // a request: ordinary routes, the pending request (if any) keeps waiting
+			} else {
+				deliver(o.ID)
+			}
 		case "reenter":
 			// generated with ids nobody is waiting for: ordinary routing, whose handler sends request 20+index
 			deliver(o.ID)
@@ -500,6 +554,25 @@ func (c07) Oracle(inp interface{}, obs Sx) (string, string) {
 	if len(chs) != len(reqID) {
 		return "request count differs", "shape"
 	}
+	gotRefused := map[int]bool{}
+	for _, v := range obs.L[4].L {
+		gotRefused[int(v.Z)] = true
+	}
+	for rq := range reqID {
+		if wantRefused[rq] && !gotRefused[rq] {
+			return fmt.Sprintf("request %d reuses id %d while an earlier request with that id is awaiting its response: SendIQ did not refuse it (it must return an error and write nothing; the earlier request would lose its entry)", rq, reqID[rq]), "clash-not-refused"
+		}
+		if !wantRefused[rq] && gotRefused[rq] {
+			return fmt.Sprintf("request %d (id %d): SendIQ failed without writing although no request with that id is awaiting a response", rq, reqID[rq]), "refused-unexpectedly"
+		}
+	}
+	for rq, ch := range chs {
+		for _, v := range ch.L[0].L {
+			if v.Z >= 100 {
+				return fmt.Sprintf("request %d (id %d) was handed a get/set IQ (somebody's request with the same id) as its response", rq, reqID[rq]), "request-delivered"
+			}
+		}
+	}
 	for rq, ch := range chs {
 		got := ch.L[0].L
 		if len(got) != want[rq] {
@@ -518,8 +591,11 @@ func (c07) Oracle(inp interface{}, obs Sx) (string, string) {
 	for _, v := range obs.L[2].L {
 		gotOrd[int(v.Z)]++
 	}
-	for id := 0; id <= 60; id++ {
+	for id := 0; id <= 200; id++ {
 		if gotOrd[id] != wantOrd[id] {
+			if id >= 100 {
+				return fmt.Sprintf("get requests with id %d: %d handed to the ordinary routes, expected %d", id-100, gotOrd[id], wantOrd[id]), "request-ordinary-count"
+			}
 			return fmt.Sprintf("responses with id %d: %d handed to the ordinary routes, expected %d", id, gotOrd[id], wantOrd[id]), "ordinary-count"
 		}
 	}
@@ -532,8 +608,11 @@ func (c07) Key(inp interface{}) (string, bool) {
 	fmt.Fprintf(&b, "c%v:", in.Component)
 	nreq, narr := 0, 0
 	for _, o := range in.Ops {
-		fmt.Fprintf(&b, "%s%d.%d.%d%v%v%v,", o.Op[:2], o.ID, o.Req, o.N, o.Fail, o.Early, o.Late)
+		fmt.Fprintf(&b, "%s%d.%d.%d%v%v%v%v,", o.Op[:2], o.ID, o.Req, o.N, o.Fail, o.Early, o.Late, o.Get)
 		hist("op:" + o.Op)
+		if o.Get {
+			hist("arrive:get-request")
+		}
 		if o.Op == "sendiq" {
 			nreq++
 		}
